@@ -178,7 +178,7 @@ structure SupInfo (d : MsgDef) (v : Nat) : Prop where
 theorem coh_supInfo {d : MsgDef} {v : Nat} (h : Supported d v = true) : SupInfo d v := by
   unfold Supported at h
   simp only [Bool.and_eq_true, decide_eq_true_eq, List.all_eq_true, Bool.not_eq_eq_eq_not, Bool.not_true] at h
-  obtain ⟨⟨⟨⟨⟨_, h2⟩, h3⟩, h4⟩, h5⟩, h6⟩ := h
+  obtain ⟨⟨⟨⟨⟨⟨_, h2⟩, h3⟩, h4⟩, h5⟩, h6⟩, _⟩ := h
   refine ⟨by rw [coh_msg_structs_names]; exact h3, h4, h2, h5, ?_⟩
   exact coh_everywhere_allFields h6
 
